@@ -208,6 +208,28 @@ def apply(repo):
             summary['proven_equivalent'].append(q)
         else:
             summary['changed'].append(q)
+    # functions that really differ: what is new relative to the reference spelling (helpers that are not in the inventory,
+    # temporaries the reference does not have) is folded away, the rest is read as written
+    if summary['changed']:
+        try:
+            light = {}
+            for q in summary['changed']:
+                t = ast.parse(ref[q]['source'])
+                light[q] = {n.id for n in ast.walk(t) if isinstance(n, ast.Name)} | {a.arg for a in ast.walk(t) if isinstance(a, ast.arg)}
+            mods = {name: _Mod(ast.parse(m.source)) for name, m in repo.modules.items()}
+            nz = normal.Normalizer(mods, inventory=inventory, only=set(summary['changed']), light=light)
+            nz.run()
+            for name, m2 in mods.items():
+                for q, fn2, body2, cls2 in functions(m2.tree, name):
+                    if q in light:
+                        m, fn, body, seg = current[q]
+                        for k, x in enumerate(body):
+                            if x is fn:
+                                body[k] = fn2
+                        touched.add(m.name)
+            summary['read_with_new_helpers_and_temporaries_folded'] = sorted(light)
+        except RecursionError:
+            pass
     for name in touched:
         repo.modules[name].annotate()
     return summary
